@@ -83,6 +83,13 @@ impl PortOracle {
     /// Check DR reads of all ports and the messages emitted by the last operation.
     /// `before` = outputs before the operation; `stamp_lo..=stamp_hi` = guest-time span of it.
     pub fn check(&mut self, dr_reads: &[u8; NPORTS], msgs: &[String], before: &[u8; NPORTS], stamp_lo: u64, stamp_hi: u64) -> Result<(), String> {
+        self.check_multi(dr_reads, msgs, &[*before], stamp_lo, stamp_hi)
+    }
+
+    /// As `check`, for a step in which several operations happened (a polled line and the instruction of the same
+    /// iteration): `outputs_seen` holds the driven outputs before the step and after every operation but the last.
+    pub fn check_multi(&mut self, dr_reads: &[u8; NPORTS], msgs: &[String], outputs_seen: &[[u8; NPORTS]], stamp_lo: u64, stamp_hi: u64) -> Result<(), String> {
+        let before = &outputs_seen[0];
         for i in 0..NPORTS {
             if dr_reads[i] != self.m[i].dr_read() {
                 return Err(format!(
@@ -105,7 +112,7 @@ impl PortOracle {
                 return Err(format!("ioport message for a port that does not exist: {:?}", m));
             }
             let i = p as usize - 1;
-            if v != self.m[i].output() && v != before[i] {
+            if v != self.m[i].output() && !outputs_seen.iter().any(|o| o[i] == v) {
                 return Err(format!("message {:?} announces neither the old ({:02x}) nor the new ({:02x}) output of port {:x}", m, before[i], self.m[i].output(), p));
             }
             if t < self.last_stamp {
